@@ -2,6 +2,8 @@ package main
 
 import (
 	"fmt"
+	"go/token"
+	"go/types"
 
 	"golang.org/x/tools/go/ssa"
 )
@@ -21,6 +23,9 @@ func init() {
 	register(&Rule{ID: "C16.4", Prop: "C16", Min: 4,
 		Text: "the auth verdict is what the accept hook returns: authCheckerPlugin.PostAccept returns nil only when no checker is configured, otherwise the checker's status, or the PreSend failure on its non-OK edge; authBearerPlugin.PostDial returns the bearer function's status",
 		Run:  runC16_4})
+	register(&Rule{ID: "C16.7", Prop: "C16", Min: 2,
+		Text: "a hook that panics rejects: in every hook runner of the plugin container that returns a *Status and recovers (postAccept, postDial, ...), the status assigned in the recover branch is the function's RESULT variable (the value the recovered activation returns), and it is a non-nil status - a runner that recovers into a local returns nil, i.e. accepts the connection",
+		Run:  runC16_7})
 	register(&Rule{ID: "C16.6", Prop: "C16", Min: 5,
 		Text: "a rejected connection is closed and not listed: on the non-OK edge of the accept/dial hooks every path removes the session from the index (C07.11), and closeLocked deletes the index entry for every state it closes from - including Preparing, since a hook may have indexed the session through SetID",
 		Run:  func(c *Ctx) { runC07_11(c); checkCloseLockedDeletes(c) }})
@@ -374,5 +379,95 @@ func runC16_5(c *Ctx) {
 		c.fact("dominance")
 		c.Check(perConn && ioOK && retOK, key, p.Pos(once.Pos()), "flag allocated per hook invocation; CAS failure returns "+s.sentinel+"; all I/O on the success edge",
 			fmt.Sprintf("once-closure broken (per-connection flag: %v, I/O only after CAS success: %v, misuse status on failure: %v)", perConn, ioOK, retOK))
+	}
+}
+
+func runC16_7(c *Ctx) {
+	p := c.P
+	pscN := p.Named(Root, "pluginSingleContainer")
+	statusPtr := types.NewPointer(p.Named(statusPkg, "Status"))
+	n := 0
+	for _, fn := range p.ShippedFuncs() {
+		if fn.Signature.Recv() == nil || derefNamed(fn.Signature.Recv().Type()) != pscN {
+			continue
+		}
+		res := fn.Signature.Results()
+		if res.Len() != 1 || !types.Identical(res.At(0).Type(), statusPtr) {
+			continue
+		}
+		var rec *ssa.Function
+		var mc *ssa.MakeClosure
+		Instrs(fn, func(i ssa.Instruction) {
+			d, ok := i.(*ssa.Defer)
+			if !ok {
+				return
+			}
+			m, isMC := d.Call.Value.(*ssa.MakeClosure)
+			if !isMC {
+				return
+			}
+			cl, _ := m.Fn.(*ssa.Function)
+			if cl == nil {
+				return
+			}
+			Instrs(cl, func(j ssa.Instruction) {
+				if call, isCall := j.(*ssa.Call); isCall {
+					if b, isB := call.Call.Value.(*ssa.Builtin); isB && b.Name() == "recover" {
+						rec, mc = cl, m
+					}
+				}
+			})
+		})
+		if rec == nil {
+			continue
+		}
+		n++
+		key := "recover branch of " + fn.Name() + " sets the result"
+		// the cell returned by the recovered activation
+		var cell *ssa.Alloc
+		if fn.Recover != nil {
+			for _, in := range fn.Recover.Instrs {
+				if ret, ok := in.(*ssa.Return); ok && len(ret.Results) == 1 {
+					if u, isU := ret.Results[0].(*ssa.UnOp); isU && u.Op == token.MUL {
+						cell, _ = u.X.(*ssa.Alloc)
+					}
+				}
+			}
+		}
+		ok := false
+		if cell != nil {
+			for k, fv := range rec.FreeVars {
+				if mc.Bindings[k] != ssa.Value(cell) {
+					continue
+				}
+				// stored, non-nil, on the recover() != nil edge
+				for _, e := range NilCmpEdges(rec, func(v ssa.Value) bool {
+					call, isCall := v.(*ssa.Call)
+					if !isCall {
+						return false
+					}
+					b, isB := call.Call.Value.(*ssa.Builtin)
+					return isB && b.Name() == "recover"
+				}) {
+					all, _ := p.MustPassBeforeExit(e.NonNil.Instrs[0], func(i ssa.Instruction) bool {
+						st, isSt := i.(*ssa.Store)
+						return isSt && st.Addr == ssa.Value(fv) && !IsNilConst(st.Val)
+					}, nil)
+					// the first instruction itself may be the store
+					if st, isSt := e.NonNil.Instrs[0].(*ssa.Store); isSt && st.Addr == ssa.Value(fv) && !IsNilConst(st.Val) {
+						all = true
+					}
+					if all {
+						ok = true
+					}
+				}
+			}
+		}
+		c.fact("must-pass")
+		c.Check(ok, key, p.Pos(fn.Pos()), "the recovered activation returns the named result, which the recover branch sets to a non-nil status on every path",
+			fn.Name()+" recovers from a panicking hook but the status it builds does not reach the caller (the recovered activation returns nil = OK): a checker that panics on a crafted credential accepts the connection")
+	}
+	if n < 2 {
+		c.Undec("recovering hook runners", "", fmt.Sprintf("found %d, expected >= 2", n))
 	}
 }
